@@ -781,31 +781,20 @@ theorem mdpLP_equiv (S A : List Nat) (γ : Rat) (h : List Basis) (g R : List Bas
 
 /-! ## from the g-form to the Bellman form: `g_k = Σ_{s'} P(s'|s,a) h_k(s')` -/
 
-theorem sumQ_map_add {α : Type} (l : List α) (f g : α → Rat) : sumQ (l.map (fun x => f x + g x)) = sumQ (l.map f) + sumQ (l.map g) := by
-  induction l with
-  | nil => simp [sumQ]
-  | cons x xs ih => simp only [List.map_cons, sumQ, ih]; ring
-
-theorem sumQ_map_mul {α : Type} (l : List α) (c : Rat) (f : α → Rat) : sumQ (l.map (fun x => c * f x)) = c * sumQ (l.map f) := by
-  induction l with
-  | nil => simp [sumQ]
-  | cons x xs ih => simp only [List.map_cons, sumQ, ih]; ring
-
 /-- expectation is linear -/
 theorem expect_linear (S A : List Nat) (ddn : List DNode) (s a : List Nat) (c : Nat → Rat) (f : Nat → List Nat → Rat) :
     ∀ n, expect S A ddn (fun s1 => sumTo n (fun k => c k * f k s1)) s a = sumTo n (fun k => c k * expect S A ddn (f k) s a)
   | 0 => by
     simp only [expect, sumTo, mul_zero]
-    induction (allActs S) with
-    | nil => rfl
-    | cons x xs ih => simp only [List.map_cons, sumQ, ih]; ring
+    exact sumTo_zero _
   | n+1 => by
     have ih := expect_linear S A ddn s a c f n
     simp only [expect, sumTo] at ih ⊢
-    have e : (fun s1 => transP S A ddn s a s1 * (sumTo n (fun k => c k * f k s1) + c n * f n s1))
-        = (fun s1 => transP S A ddn s a s1 * sumTo n (fun k => c k * f k s1) + c n * (transP S A ddn s a s1 * f n s1)) := by
-      funext s1; ring
-    rw [e, sumQ_map_add, ih, sumQ_map_mul]
+    have e : (fun id => transP S A ddn s a (toFactors S id) * (sumTo n (fun k => c k * f k (toFactors S id)) + c n * f n (toFactors S id)))
+        = (fun id => transP S A ddn s a (toFactors S id) * sumTo n (fun k => c k * f k (toFactors S id))
+            + c n * (transP S A ddn s a (toFactors S id) * f n (toFactors S id))) := by
+      funext id; ring
+    rw [e, sumTo_add, ih, sumTo_mul]
 
 /-- **`q_is_backup` / Bellman form**: if every `g_k` is the back-projection of `h_k` (checked exactly by the driver on every
     instance: `bp_is_expectation`), the g-form constraint is  R + γ P V_w ≤ V_w -/
